@@ -2,6 +2,7 @@
 # metadata.
 
 import ast
+from pyfront import clone as _clone
 import json
 import os
 
@@ -34,19 +35,38 @@ def r1_copy(L, repo):
     fn = "TxMsg.trans"
     L.fn(FD, fn)
     VER = params(tr)[1]
-    fw = Fwd(split=True)
-    fw.run(tr.body)
     ctor = [c for c in calls_in(tr) if canon(c.func) == "RxMsg"]
     L.require("C10.R1", FD, fn, "number of RxMsg constructions", 1, len(ctor))
+    NEW = None
     for c in ctor:
         kws = {k.arg: canon(k.value) for k in c.keywords}
         L.require("C10.R1", FD, fn, "the copy keeps frame and timeslot number and takes the recipient's header version",
                   {"fn": "self.fn", "tn": "self.tn", "ver": "self.ver if %s is None else %s" % (VER, VER)}, kws, line=c.lineno)
-    eff = sorted((tuple(cd), e) for cd, e in fw.effects)
-    L.require("C10.R1", FD, fn, "hard bits become soft bits through ubit2sbit; a missing burst becomes a NOPE indication",
-              sorted([((("self.burst is not None", True),), "RxMsg(fn=self.fn, tn=self.tn, ver=self.ver if %s is None else %s).burst = self.ubit2sbit(self.burst)" % (VER, VER)),
-                      ((("self.burst is not None", False),), "RxMsg(fn=self.fn, tn=self.tn, ver=self.ver if %s is None else %s).nope_ind = True" % (VER, VER))]),
-              eff)
+        par = getattr(c, "_parent", None)
+        if isinstance(par, ast.Assign) and isinstance(par.targets[0], ast.Name):
+            NEW = par.targets[0].id
+    if NEW is None:
+        raise AnalysisError("TxMsg.trans: the new message is not bound to a local")
+
+    def ev(st):
+        if isinstance(st, ast.Assign) and len(st.targets) == 1 and canon(st.targets[0]).startswith(NEW + "."):
+            return (canon(st.targets[0])[len(NEW) + 1:], canon(st.value))
+        if isinstance(st, ast.Return):
+            return ("ret", canon(st.value) if st.value is not None else None)
+        return None
+    W = Walker(ev)
+    atoms = W.atoms(tr.body)
+    A = "None is self.burst"
+    unknown = [x for x in atoms if x != A]
+    if A not in atoms:
+        atoms.append(A)
+    atoms, rows = W.table(tr.body, atoms)
+    for vals, evs in sorted(rows.items()):
+        a = dict(zip(atoms, vals))
+        want = (("nope_ind", "True"), ("ret", NEW)) if a[A] else (("burst", "self.ubit2sbit(self.burst)"), ("ret", NEW))
+        extra = "".join(" %s=%d" % (u[:40], a[u]) for u in unknown)
+        L.require("C10.R1", FD, fn, "hard bits become soft bits through ubit2sbit; a missing burst becomes a NOPE indication [burst missing=%d%s]" % (a[A], extra),
+                  want, evs)
     # legacy padding towards L1
     FT = rel("transceiver")
     L.unit(FT)
@@ -75,7 +95,7 @@ def inline_props(repo, ci, expr, selfname):
                     rets = [s for s in m.body if isinstance(s, ast.Return)]
                     if len(m.body) == len(rets) == 1 or (len(rets) == 1 and all(
                             isinstance(s, ast.Return) or (isinstance(s, ast.Expr) and isinstance(s.value, ast.Constant)) for s in m.body)):
-                        body = copy.deepcopy(rets[0].value)
+                        body = _clone(rets[0].value)
 
                         class R(ast.NodeTransformer):
                             def visit_Name(self, x):
@@ -84,7 +104,7 @@ def inline_props(repo, ci, expr, selfname):
                                 return x
                         return R().visit(body)
             return n
-    return T().visit(copy.deepcopy(expr))
+    return T().visit(_clone(expr))
 
 
 def r2_formulas(L, repo):
@@ -159,7 +179,7 @@ def r2_formulas(L, repo):
         fw.run(m.body)
         got = {}
         for conds, r in fw.returns:
-            key = tuple(sorted(literals(ast.parse(cd, mode="eval").body, p) .pop() for cd, p in conds)) if conds else ()
+            key = tuple(sorted(conds))
             if r is not None and isinstance(r, ast.Call) and canon(r.func) in ("random.randint", "randint") and len(r.args) == 2:
                 lo = X.linear(X.PyLower().lower(r.args[0]))
                 hi = X.linear(X.PyLower().lower(r.args[1]))
@@ -183,22 +203,48 @@ def r3_mod_tsc(L, repo):
     fn = "FakeTRX._handle_data_msg_v1"
     L.fn(F, fn)
     _, SMSG, MSG = params(h1)
-    subst = deep_subst(h1)
     cfg = CFG(h1)
-    st = {}
-    for n in ast.walk(h1):
-        if isinstance(n, ast.Assign) and canon(n.targets[0]).startswith(MSG + "."):
-            lits = guard_literals(cfg, cfg.node_of(n), subst)
-            st.setdefault(canon(n.targets[0])[len(MSG) + 1:], []).append((lit_fmt(lits), canon(n.value, subst)))
+    subst = deep_subst(h1)
+    # modulation
+    mods = [n for n in ast.walk(h1) if isinstance(n, ast.Assign) and canon(n.targets[0]) == "%s.mod_type" % MSG]
     pick = "Modulation.pick_by_bl(len(%s.burst))" % SMSG
-    L.require("C10.R3", F, fn, "modulation follows the length of the transmitted burst", [([], pick)], st.get("mod_type"))
-    gm = "Modulation.ModGMSK is %s.mod_type" % MSG
-    ts = "TrainingSeqGMSK.pick(%s.burst)" % SMSG
-    want_tsc = sorted([([gm], "%s.tsc if %s is not None else 0" % (ts, ts)), (["not " + gm], "0")])
-    want_set = sorted([([gm], "%s.tsc_set if %s is not None else 0" % (ts, ts)), (["not " + gm], "0")])
-    L.require("C10.R3", F, fn, "TSC is that of the training sequence found in a GMSK burst (0 if none / other modulations)", want_tsc, sorted(st.get("tsc", [])))
-    L.require("C10.R3", F, fn, "TSC set is that of the training sequence found in a GMSK burst (0 if none / other modulations)", want_set,
-              sorted(st.get("tsc_set", [])))
+    L.require("C10.R3", F, fn, "modulation follows the length of the transmitted burst",
+              [([], pick)], [(lit_fmt(guard_literals(cfg, cfg.node_of(n), subst)), canon(n.value, subst)) for n in mods])
+    # the training sequence found in the transmitted burst
+    SS = None
+    for n in ast.walk(h1):
+        if isinstance(n, ast.Assign) and isinstance(n.targets[0], ast.Name) and \
+                canon(n.value) == "TrainingSeqGMSK.pick(%s.burst)" % SMSG:
+            SS = n.targets[0].id
+    if SS is None:
+        raise AnalysisError("_handle_data_msg_v1: TrainingSeqGMSK.pick(<source burst>) is not bound to a local")
+
+    def ev(st):
+        if isinstance(st, ast.Assign) and len(st.targets) == 1 and canon(st.targets[0]) in ("%s.tsc" % MSG, "%s.tsc_set" % MSG):
+            return (canon(st.targets[0])[len(MSG) + 1:], canon(st.value))
+        if isinstance(st, ast.Assign) and len(st.targets) == 1 and isinstance(st.targets[0], ast.Name) and st.targets[0].id == SS:
+            return ("pick",)
+        return None
+    W = Walker(ev)
+    atoms = W.atoms(h1.body)
+    A_G, A_N = "Modulation.ModGMSK is %s.mod_type" % MSG, "None is %s" % SS
+    unknown = [x for x in atoms if x not in (A_G, A_N)]
+    for x in (A_G, A_N):
+        if x not in atoms:
+            atoms.append(x)
+    atoms, rows = W.table(h1.body, atoms)
+    for vals, evs in sorted(rows.items()):
+        a = dict(zip(atoms, vals))
+        got = dict((e[0], e[1]) for e in evs if len(e) == 2)
+        picked = ("pick",) in evs
+        if a[A_G] and not a[A_N]:
+            want = {"tsc": "%s.tsc" % SS, "tsc_set": "%s.tsc_set" % SS}
+        else:
+            want = {"tsc": "0", "tsc_set": "0"}
+        ok = got == want and (picked or not a[A_G])
+        extra = "".join(" %s=%d" % (u[:40], a[u]) for u in unknown)
+        L.ob("C10.R3", F, fn, "TSC / TSC set are those of the training sequence found in a GMSK burst, 0 if none or another modulation [GMSK=%d, none found=%d%s]" % (
+            a[A_G], a[A_N], extra), want, got, ok, h1.lineno)
     # call site: only for version >= 1, with (source message, forwarded message)
     c, hd = repo.need_method("fake_trx", "FakeTRX", "handle_data_msg")
     ps = params(hd)
@@ -249,46 +295,52 @@ def r3_mod_tsc(L, repo):
     # pick(): slices
     c3, pk = repo.find_method(tci, "pick")
     B = params(pk)[1]
-    sl = {}
-    for n in ast.walk(pk):
-        if isinstance(n, ast.Assign) and isinstance(n.targets[0], ast.Name):
-            v = n.value
-            # burst[a:][:l]  or burst[a:a+l]
-            if isinstance(v, ast.Subscript) and isinstance(v.slice, ast.Slice):
-                inner = v.value
-                try:
-                    if isinstance(inner, ast.Subscript) and isinstance(inner.slice, ast.Slice) and canon(inner.value) == B:
-                        a = fold(repo, gs, inner.slice.lower)
-                        ln = fold(repo, gs, v.slice.upper)
-                        sl[n.targets[0].id] = (a, ln)
-                    elif canon(inner) == B:
-                        a = fold(repo, gs, v.slice.lower)
-                        b = fold(repo, gs, v.slice.upper)
-                        sl[n.targets[0].id] = (a, b - a)
-                except Unknown:
-                    raise AnalysisError("TrainingSeqGMSK.pick: slice bounds do not fold")
-    # which slice is compared for which burst type
+    # which slice is compared for which burst type: enumerate the paths of one loop iteration
+    loops = [n for n in pk.body if isinstance(n, ast.For)]
+    if len(loops) != 1:
+        raise AnalysisError("TrainingSeqGMSK.pick: expected one loop over the sequences")
+    loopvar = canon(loops[0].target)
+    pre = [x for x in pk.body if x.lineno < loops[0].lineno]
+    fwp = Fwd(split=True)
+    env0 = fwp.run(pre) or {}
+    fwl = Fwd(split=True)
+    fwl.run(loops[0].body, env0)
     cmpmap = {}
-    for n in ast.walk(pk):
-        if isinstance(n, ast.If):
-            for (t, p) in literals(n.test, True):
-                pass
-            lits = literals(n.test, True)
-            bts = [t for t, p in lits if p and "BurstType." in t and " is " in t]
-            eqs = [t for t, p in lits if p and "==" in t and ".seq" in t]
-            rets = [canon(s.value) for s in n.body if isinstance(s, ast.Return)]
-            if len(bts) == 1 and len(eqs) == 1 and rets:
-                bt = bts[0].split("BurstType.")[1].split(" ")[0]
-                var = [x for x in eqs[0].replace("==", " ").split() if x in sl]
-                if len(var) == 1:
-                    cmpmap[bt] = (sl[var[0]], rets[0])
-    loopvar = None
-    for n in ast.walk(pk):
-        if isinstance(n, ast.For):
-            loopvar = canon(n.target)
+
+    def slice_of(e):
+        """(start, length) of burst[a:][:l] / burst[a:b]"""
+        try:
+            if isinstance(e, ast.Subscript) and isinstance(e.slice, ast.Slice):
+                inner = e.value
+                if isinstance(inner, ast.Subscript) and isinstance(inner.slice, ast.Slice) and canon(inner.value) == B:
+                    return (fold(repo, gs, inner.slice.lower), fold(repo, gs, e.slice.upper))
+                if canon(inner) == B:
+                    a_, b_ = fold(repo, gs, e.slice.lower), fold(repo, gs, e.slice.upper)
+                    return (a_, b_ - a_)
+        except Unknown:
+            raise AnalysisError("TrainingSeqGMSK.pick: slice bounds do not fold")
+        return None
+    for conds, r in fwl.returns:
+        if r is None or canon(r) != loopvar:
+            continue
+        simple = [(t, p) for t, p in conds if " | " not in t and " & " not in t]
+        bts = [t for t, p in simple if p and "BurstType." in t and (" is " in t or " == " in t)]
+        eqs = [t for t, p in simple if p and " == " in t and "%s.seq" % loopvar in t]
+        if len(bts) != 1 or len(eqs) != 1:
+            raise AnalysisError("TrainingSeqGMSK.pick: match condition unclassifiable: %s" % (conds,))
+        bt = bts[0].split("BurstType.")[1].split(" ")[0]
+        cmp_ = ast.parse(eqs[0], mode="eval").body
+        other = cmp_.comparators[0] if canon(cmp_.left) == "%s.seq" % loopvar else cmp_.left
+        sl_ = slice_of(other)
+        if sl_ is None:
+            raise AnalysisError("TrainingSeqGMSK.pick: compared slice unclassifiable: %s" % canon(other))
+        if bt in cmpmap and cmpmap[bt] != (sl_, loopvar):
+            raise AnalysisError("TrainingSeqGMSK.pick: two different slices for %s" % bt)
+        cmpmap[bt] = (sl_, loopvar)
     want = {bt: ((o["start"], o["len"]), loopvar) for bt, o in ref["offsets"].items()}
     L.require("C10.R3", FG, "TrainingSeqGMSK.pick", "pick() compares each sequence with the burst slice at its burst type's position and returns the matching member",
               want, cmpmap)
+    L.require("C10.R3", FG, "TrainingSeqGMSK.pick", "all sequences are tried", "list(self)" , canon(loops[0].iter).replace("list(cls)", "list(self)"))
     rets = [canon(n.value) for n in pk.body if isinstance(n, ast.Return)]
     L.require("C10.R3", FG, "TrainingSeqGMSK.pick", "no match yields None", ["None"], rets)
     # generators: length tracking
